@@ -272,6 +272,9 @@ func (rt *runtimeS) connOfObj(obj any) int {
 func (rt *runtimeS) hookEmit(name string, obj any, id uint64, n int, s string) {
 	e := ev("Hk")
 	e.K, e.Msg, e.N, e.X = name, fmt.Sprintf("%d", id), n, s
+	if id < 1<<31 {
+		e.Code = int(id)
+	}
 	e.Conn = rt.connOfObj(obj)
 	tr.emit(e)
 }
@@ -561,6 +564,19 @@ func (rt *runtimeS) step(st Step) {
 			rt.srv.Stop()
 		default:
 			panic("verif-harness: unknown fault " + st.What)
+		}
+	case "unfault":
+		e := ev("Unfault")
+		e.Conn, e.K = conn, st.What
+		switch st.What {
+		case "cwrite":
+			p := rt.pipeOf(conn, "c2s")
+			p.with(func() { p.werr = nil; tr.emit(e) })
+		case "swrite":
+			p := rt.pipeOf(conn, "s2c")
+			p.with(func() { p.werr = nil; tr.emit(e) })
+		default:
+			panic("verif-harness: unknown unfault " + st.What)
 		}
 	case "arm":
 		rt.g.arm(st.Gate, st.Id, st.N)
